@@ -655,6 +655,14 @@ void MultiWaits() {
 
 namespace probe {
 // move assignment of every handle kind (they rely on IntrusivePtr's same-type move assignment)
+void ResultErrorAccessors() {
+  yaclib::ResultError<yaclib::StopError> e{yaclib::StopError{yaclib::StopTag{}}};
+  Sink(e.Get());
+  const auto& ce = e;
+  Sink(ce.Get());
+  Sink(e.what());
+}
+
 void HandleAssignments() {
   auto [f, p] = yaclib::MakeContract<int>();
   auto [g, q] = yaclib::MakeContract<int>();
@@ -682,6 +690,7 @@ extern "C" void probe_async_all() {
   SubmitFunctors();
   MultiWaits();
   HandleAssignments();
+  ResultErrorAccessors();
   for (int how = 0; how < 11; ++how) {
     ConsumerKinds<void, StopError>(how);
     ConsumerKinds<int, StopError>(how);
